@@ -199,8 +199,24 @@ func c17Run(c *core.C) {
 		f.Tokens = append(f.Tokens, &Live{T: t, Prov: []int{f.ev()}, Origin: "build"})
 		f.Ops = append(f.Ops, "build -> #0")
 		parentOf := map[int]int{0: -1}
-		for step := 0; step < 6+r.Intn(6); step++ {
+		lastParent := 0
+		for step, nSteps := 0, 8+r.Intn(8); step < nSteps; step++ {
+			// half of the time extend the longest chain (deep tokens), one time in five fork the
+			// parent used last (siblings), otherwise any live token
 			p := r.Intn(len(f.Tokens))
+			switch k := r.Intn(10); {
+			case k < 5:
+				p = len(f.Tokens) - 1
+				for q := len(f.Tokens) - 1; q >= 0; q-- {
+					if !f.Tokens[q].T.Sealed && len(f.Tokens[q].T.Blocks) >= len(f.Tokens[p].T.Blocks) {
+						p = q
+						break
+					}
+				}
+			case k < 7:
+				p = lastParent
+			}
+			lastParent = p
 			var err error
 			before := len(f.Tokens)
 			switch k := r.Intn(10); {
